@@ -60,6 +60,7 @@ struct ConnState {
     unacked: bool, // a reply frame was handed to the client and not acknowledged yet
     // frame boundaries inside rbuf: (bytes still unread, exchange, position, a planned well-formed frame?)
     marks: VecDeque<(usize, u64, u64, bool)>,
+    frames: VecDeque<Vec<u8>>, // the bytes of the planned frames behind `marks` (same order, planned ones only)
 }
 
 /// Queue bytes for the client and remember where the frame ends, so that the moment the client has consumed it can be logged.
@@ -69,6 +70,9 @@ fn push_frame(c: &mut ConnState, bytes: &[u8], ex: u64, pos: u64, planned: bool)
     }
     c.rbuf.extend(bytes.iter().copied());
     c.marks.push_back((bytes.len(), ex, pos, planned));
+    if planned {
+        c.frames.push_back(bytes.to_vec());
+    }
 }
 
 /// Events one public call may produce before it counts as running away (a fault-free call needs a few dozen, 20 failed attempts
@@ -155,6 +159,9 @@ fn script_for(term: &mut Term, frame: &[u8], plan: &Value) -> (Vec<Vec<u8>>, Str
     let empty = json!({});
     // a status information in front of the final packet of the exchange (reservation, reversals, end of day)
     let status_first = plan.get("status_first").and_then(|b| b.as_bool()).unwrap_or(false);
+    // an abort that names a receipt number (06 1E 04 cc 87 rr rr) instead of the short form 06 1E 01 cc
+    let abort_receipt: Option<usize> = plan.get("abort_receipt").and_then(|r| r.as_u64()).map(|r| r as usize);
+    let abort_rn = |code: u8| -> Vec<u8> { p::PartialReversalAbort { error: code, receipt_no: abort_receipt }.zvt_serialize() };
     match cf {
         (0x06, 0x00) => {
             // Registration
@@ -257,7 +264,7 @@ fn script_for(term: &mut Term, frame: &[u8], plan: &Value) -> (Vec<Vec<u8>>, Str
                         if status_first {
                             frames.push(status_from(plan.get("status").unwrap_or(&empty), Some(receipt as usize)).zvt_serialize());
                         }
-                        frames.push(p::PartialReversalAbort { error: code, receipt_no: None }.zvt_serialize())
+                        frames.push(abort_rn(code))
                     }
                     "ok_nostatus" => {
                         term.ledger.retain(|(r, _, _)| *r != receipt);
@@ -282,7 +289,7 @@ fn script_for(term: &mut Term, frame: &[u8], plan: &Value) -> (Vec<Vec<u8>>, Str
                 frames.push(status_from(&empty, None).zvt_serialize());
             }
             if o == "abort" {
-                frames.push(p::PartialReversalAbort { error: code, receipt_no: None }.zvt_serialize());
+                frames.push(abort_rn(code));
             } else {
                 term.ledger.retain(|(r, _, _)| *r != receipt);
                 frames.push(completion());
@@ -293,7 +300,7 @@ fn script_for(term: &mut Term, frame: &[u8], plan: &Value) -> (Vec<Vec<u8>>, Str
                 frames.push(status_from(&empty, None).zvt_serialize());
             }
             if o == "abort" {
-                frames.push(p::PartialReversalAbort { error: code, receipt_no: None }.zvt_serialize());
+                frames.push(abort_rn(code));
             } else {
                 frames.push(completion());
             }
@@ -587,7 +594,13 @@ impl AsyncRead for Conn {
             if m.0 == 0 {
                 let (_, ex, pos, planned) = c.marks.pop_front().unwrap();
                 let id = c.id;
-                term.log(json!({"e": "got", "conn": id, "ex": ex, "pos": pos, "planned": planned}));
+                if planned {
+                    let raw = c.frames.pop_front().unwrap_or_default();
+                    let kind = if raw.len() >= 2 { cmd_kind(&raw) } else { "Other" };
+                    term.log(json!({"e": "got", "conn": id, "ex": ex, "pos": pos, "planned": true, "kind": kind, "raw": raw}));
+                } else {
+                    term.log(json!({"e": "got", "conn": id, "ex": ex, "pos": pos, "planned": false}));
+                }
             }
         }
         Poll::Ready(Ok(()))
@@ -596,12 +609,17 @@ impl AsyncRead for Conn {
 
 impl Drop for Conn {
     fn drop(&mut self) {
-        let id = {
+        let (id, junk) = {
             let mut c = self.st.lock().unwrap_or_else(|e| e.into_inner());
             c.dropped = true;
-            c.id
+            (c.id, c.wbuf.clone())
         };
         let mut t = self.term.lock().unwrap_or_else(|e| e.into_inner());
+        if !junk.is_empty() {
+            // bytes the client wrote that never became a whole frame: a mutilated request
+            let n = junk.len();
+            t.log(json!({"e": "junk", "conn": id, "len": n, "head": junk[..n.min(16)].to_vec()}));
+        }
         t.log(json!({"e": "close", "conn": id}));
     }
 }
@@ -658,6 +676,8 @@ fn classify_err(e: &anyhow::Error) -> Value {
             FE::NoCardPresented => "NoCardPresented",
             FE::UnknownToken(_) => "UnknownToken",
             FE::NeedsPinEntry => "NeedsPinEntry",
+            #[allow(unreachable_patterns)]
+            _ => "Other",
         };
         return json!({"class": class, "code": Value::Null, "text": text});
     }
@@ -843,6 +863,8 @@ pub fn run_scenario(sc: &Value) -> Value {
                 "read_card" => guarded_call(&term, op, f.read_card(), |c| match c {
                     CardInfo::Bank => json!({"card": "Bank", "id": []}),
                     CardInfo::MembershipCard(s) => json!({"card": "Membership", "id": s.chars().map(|c| c as u32).collect::<Vec<_>>()}),
+                    #[allow(unreachable_patterns)]
+                    _ => json!({"card": "Other", "id": []}),
                 }).await,
                 "configure" => guarded_call(&term, op, f.configure(), |_| json!({})).await,
                 other => {
